@@ -29,7 +29,7 @@ META = {
             "constants, loss averaging) is abstracted into nondeterministic integers and NOT checked. Real-code schedules are "
             "sampled (real goroutines, real clock), only the model's interleavings are exhaustive. Trusted: the reading of "
             "the property in Gcc.tla; the harness's packet builders (pion/rtcp, the real twcc.Recorder); quiescence = an "
-            "empty feedback flushed through the unbuffered pipeline + callback count equal to pacer count (or a 1.5 s quiet "
+            "empty feedback flushed through the unbuffered pipeline + callback count equal to pacer count (or a 3 s quiet "
             "period).",
     "technique": "TLA+ protocol model checked with TLC (safety + liveness); TLC-generated scripts replayed on the Go code; "
                  "recorded traces validated by TLC",
@@ -138,6 +138,10 @@ def run_batch(ctx, scripts, tag, level="bwe", par=8, race=False):
     events = vlib.read_ndjson(outp)
     v = vlib.validate(ctx, "Trace_Gcc.tla", outp, timeout=1800)
     traces = vlib.split_traces(events)
+    for m in re.finditer(r'<<\s*"NOTE",[^>]*>>', v.out):
+        note = " ".join(m.group(0).split())
+        if note not in ctx.notes:
+            ctx.notes.append(note)
     ninc = sum(1 for e in events if e.get("a") == "inconclusive")
     ctx.inconclusive = getattr(ctx, "inconclusive", 0) + ninc
     vlib.handle_validation(ctx, v, events, tag, lambda i: scripts[i] if i < len(scripts) else None)
@@ -345,7 +349,7 @@ def run(ctx):
         "(send_side_bwe.go onDelayUpdate), so the recorded order is the publication order and a getter poll must return the "
         "k-th published value for some k between the pacer-call counts before and after the poll",
         "quiescence: an empty TransportLayerCC written after all other feedback is consumed by the (unbuffered) pipeline only "
-        "when all earlier work is done; callbacks are awaited until their count equals the pacer-call count or 1.5 s of silence",
+        "when all earlier work is done; callbacks are awaited until their count equals the pacer-call count or 3 s of silence",
         "departure times are the real clock (time.Now in the code): gaps are real sleeps and are inputs, never assertions",
         "Go toolchain go1.24.0, pion/rtcp v1.2.17 and the repository's twcc.Recorder build the feedback packets",
     ]
